@@ -621,8 +621,9 @@ def build_optimized_tables(
                         tensor_factors.append(tensor_factor)
                         break
                 else:
+                    # The rule id keeps factor tables of different rules in one kernel apart
                     ut = UniqueTableReferenceT(
-                        name=f"FE_TF{tensor_n}",
+                        name=f"FE_TF{tensor_n}_Q{quadrature_rule.id()}",
                         values=sub_tbl,
                         ttype="tensor_factor",
                         is_permuted=False,
